@@ -174,6 +174,9 @@ void bag<Item, Alloc>::serialize(const std::string &fname) {
   std::ofstream             os(rank_fname, std::ios::binary);
   cereal::JSONOutputArchive oarchive(os);
   oarchive(m_local_bag, m_round_robin, m_comm.size());
+  // No rank may change the container before every rank has captured its
+  // image.
+  m_comm.cf_barrier();
 }
 
 template <typename Item, typename Alloc>
@@ -192,6 +195,8 @@ void bag<Item, Alloc>::deserialize(const std::string &fname) {
         "Attempting to deserialize bag_impl using communicator of "
         "different size than serialized with");
   }
+  // No rank may use the container before every rank has loaded its image.
+  m_comm.cf_barrier();
 }
 
 template <typename Item, typename Alloc>
